@@ -225,6 +225,10 @@ PROPS["C13"] = dict(
     technique="Lean 4: RW-lock world model with theorems over all schedules (exclusion, race freedom under the lock discipline, deadlock freedom, serialisation, append chain) + lock facts regenerated from the Go AST and closed by decide; controlled-schedule differential run and race-detector stress",
     level_text="Kernel-checked for any number of threads and logs and EVERY schedule: a writer excludes everyone else; under the lock discipline no two conflicting accesses are simultaneously enabled; some thread can always step (no deadlock) and every call makes a bounded number of moves; each log's state is the replay of sequential lock sessions, so every read observes a state satisfying any invariant the sequential steps preserve; an append after another append has it in its causal past and appears exactly once. The discipline itself (every access to a mutable field under the lock, no lock acquired while holding one) is extracted from /repo's Go AST on every run and closed by decide. Data races proper are a runtime notion: checked by a free-running -race stress.",
     level_note=CONC_NOTE, design_ref="§8 C13", rule=CONC_RULE)
+# a consumer of an unbuffered iteration that writes to the log between receives (core stream, `iter:consume`): a
+# lock held during delivery is a hang there — the concrete schedule for what the lock-shape facts say
+PROPS["C13"]["streams"] = PROPS["C13"]["streams"] + [core_stream()]
+PROPS["C13"]["diff_fields_by_stream"] = {"conc": r".*", "core": r"(?!)"}
 PROPS["C14"] = dict(
     title="Merging from a live log sees a consistent snapshot and cannot deadlock",
     streams=[CONC_STREAM], diff_fields=r".*", spec_ids=["C14"],
